@@ -11,7 +11,7 @@ PROPS["C20"] = {
              "(user without ':', password arbitrary incl. ':' NUL >=0x80) through Authorization, (c) arbitrary and mutated-valid "
              "Base64 text through Decode and the Authorization accessors. Non-trivial = round trip with length mod 3 != 0 or a "
              "byte >= 0x80; credentials with a ':' in the password or non-multiple-of-3 length; invalid text whose defect is not "
-             "in the last quantum. Distinct = hash of the decoded case."),
+             "in the last quantum. Distinct = hash of the decoded case. The Authorization header is treated as a value: by the credential lengths it is read directly, move-constructed or move-assigned with the source then given other credentials, copied with the source destroyed, or moved with the source destroyed and its memory re-used."),
     "engine": "rapidcheck+libFuzzer",
     "technique": "property-based testing (rapidcheck) and coverage-guided fuzzing (libFuzzer) against an independent RFC 4648 reference codec and a credentials round-trip oracle",
     "level_text": "Generated-input search with an independent reference codec: every explored byte string / credential pair / text is compared with the reference; sanitizers make out-of-bounds accesses visible. Exploration, not proof: lengths 0..600 and the sampled byte values.",
@@ -30,7 +30,7 @@ PROPS["C19"] = {
              "localhost) x port parts (absent, valid incl. 0/80/65535, empty, >65535, overlong, negative, non-numeric, unspecified forms) x "
              "structural mutations (junk after ']', missing/doubled/empty brackets, bad groups, doubled colon, bad IPv4), through "
              "Address(string), Address(host,Port) and Port(string). A reference grammar classifies each text must-accept / must-reject / "
-             "unspecified. Non-trivial = compressed IPv6, boundary port, rejected port form, or a structural mutation; distinct = hash of the text."),
+             "unspecified. Non-trivial = compressed IPv6, boundary port, rejected port form, or a structural mutation; distinct = hash of the text. One case in four (by a hash of its bytes) runs with the process's global C++ locale set to one that groups digits (classic + numpunct grouping 3): protocol text must not change."),
     "engine": "rapidcheck+libFuzzer",
     "technique": "property-based testing (rapidcheck) and libFuzzer against a reference address grammar (accept/reject classes, inet_pton/inet_ntop canonical form) plus a print/re-parse round trip",
     "level_text": "Generated-input search against a reference grammar written for the harness; checks both directions (valid forms accepted with exact host/port/family and re-parseable printing; invalid ports and malformed literals rejected with std::invalid_argument). Exploration only.",
@@ -69,7 +69,7 @@ PROPS["C17"] = {
              "names that begin with a built-in attribute name) checked by write->parse->compare->write, by hand-serialised text with shuffled "
              "attribute order / name case / spacing, Cookie headers of 0-8 pairs (repeated names, equal and different values) into a jar via "
              "addFromRaw and add, and mutated cookie strings (byte edits, truncation after = ; and attribute names, absurd Max-Age / Expires). "
-             "Non-trivial = >=3 attributes or >=2 extension attributes, a jar with a repeated name or >=3 pairs, any mutated string. Distinct = hash of the text."),
+             "Non-trivial = >=3 attributes or >=2 extension attributes, a jar with a repeated name or >=3 pairs, any mutated string. Distinct = hash of the text. One case in four (by a hash of its bytes) runs with the process's global C++ locale set to one that groups digits (classic + numpunct grouping 3): protocol text must not change."),
     "engine": "rapidcheck+libFuzzer",
     "technique": "property-based testing (rapidcheck) and libFuzzer: generated-cookie round trip compared field by field, jar contents vs the generated pair set, exactly-once iteration, parse-or-std::exception for mutants under ASan/UBSan with a guard-page buffer",
     "level_text": "Generated-input search whose oracle is the generated cookie / pair list (independent of the parser). Exploration only.",
@@ -89,7 +89,7 @@ PROPS["C16"] = {
              "constructors), Location, Server, User-Agent, Access-Control-*, Expect - checked write->Header::parse->compare->write and write->request "
              "through RequestParser->tryGet<H>->compare; (b) a request with 1-12 header lines (registered and unknown names in random capitalisation, "
              "duplicates, values over VCHAR/SP/HTAB/obs-text incl. empty, 0-3 spaces after the colon) and lookups under three capitalisations. "
-             "Non-trivial = list with >=2 elements / boundary value / Date / Host without port or IPv6 / every lookup case; distinct = hash of the written text or message."),
+             "Non-trivial = list with >=2 elements / boundary value / Date / Host without port or IPv6 / every lookup case; distinct = hash of the written text or message. One case in four (by a hash of its bytes) runs with the process's global C++ locale set to one that groups digits (classic + numpunct grouping 3): protocol text must not change."),
     "engine": "rapidcheck+libFuzzer",
     "technique": "property-based testing (rapidcheck) and libFuzzer: generated-value round trip by two routes (Header::parse and through the request parser) and a first-occurrence / any-capitalisation lookup model",
     "level_text": "Generated-input search whose oracle is the generated value and the generated header list. Exploration only.",
@@ -109,7 +109,7 @@ PROPS["C01"] = {
              "boundaries, arbitrary octets) serialised by the harness's own writer; one third get 1-3 near-well-formed mutations (byte edits, CRLF->LF/CR, bad chunk size / Content-Length / "
              "version / method / status, missing colon, CL+TE, garbage typed header, NUL/high byte, lone CR, truncation). Each message is delivered under ALL n-1 single cuts, byte-by-byte, "
              "and 4 generated multi-cut sets. Non-trivial = message with a body or >=3 headers (every such message has cuts inside tokens, between CR and LF and inside chunk framing because "
-             "single cuts are exhaustive); distinct = hash of the wire bytes. oracle_subchecks counts the prefix / feed comparisons made."),
+             "single cuts are exhaustive); distinct = hash of the wire bytes. oracle_subchecks counts the prefix / feed comparisons made. Server-level stage: one complete request in five follows a request whose handler arms a response time-out (timeoutAfter 60 ms) and parks the writer, and is written with a pause spanning that expiry."),
     "engine": "rapidcheck+libFuzzer",
     "technique": "property-based testing (rapidcheck) and libFuzzer: metamorphic prefix-consistency (incremental vs fresh one-shot parser) under exhaustive single cuts + byte-wise + sampled multi-cuts, outcome-independence over read boundaries, and an absolute AST oracle for completion and content",
     "level_text": "Generated messages x exhaustive single cuts and byte-by-byte delivery per message, sampled multi-cut sets; the AST oracle is independent of the parser. Exploration: messages are sampled, the 2^(n-1) segmentations are covered exhaustively only for the single-cut and all-cut members.",
@@ -130,7 +130,7 @@ PROPS["C03"] = {
              "generated size limit (16..16384), reset as Http::Handler::onInput / the client do; (c) every registered header's parse(), Cookie, CookieJar, MediaType (guard-page buffer), "
              "Address, Port, Base64Decoder on mutated seeds or random text. Oracle: ASan+container annotations, UBSan, asserts, watchdog, live-heap and largest-allocation bound 64*limit+1MiB "
              "via the sanitizer allocator hooks, only std::exception subclasses escape. Non-trivial = >=2 segments and (mutated, or reached Done/error, or raw bytes); value-parser cases all count. "
-             "Distinct = hash of (bytes, limit, cut count)."),
+             "Distinct = hash of (bytes, limit, cut count). Server-level stage: one complete request in five follows a request whose handler arms a response time-out (timeoutAfter 60 ms) and parks the writer, and is written with a pause spanning that expiry."),
     "engine": "libFuzzer+rapidcheck",
     "technique": "coverage-guided fuzzing (libFuzzer, ASan+UBSan+container annotations) and rapidcheck on one case function with structure-aware and byte-level decoders; oracle = sanitizers + termination watchdog + allocator-hook memory bound + exception-type check",
     "level_text": "Generated/fuzzed byte sequences x segmentations; the oracle asserts safety, termination and the memory bound only, so it cannot be fooled by what the right answer is. Exploration only.",
@@ -149,7 +149,7 @@ PROPS["C04"] = {
              "each in its own generated segmentation), each delivered completely or abandoned by an error: connection size limit placed inside a body (413 path), a later chunk-size line made "
              "invalid, both Content-Length and Transfer-Encoding, or one near-well-formed mutation. The reused parser is driven with the callers' reset discipline; each element is also given "
              "to a fresh parser in the same segmentation and outcomes are compared after every feed. Non-trivial = some non-last element has a body in progress or a Cookie/Set-Cookie header "
-             "and the next element has a different framing kind; distinct = hash of the history and limit."),
+             "and the next element has a different framing kind; distinct = hash of the history and limit. Server-level stage: one complete request in five follows a request whose handler arms a response time-out (timeoutAfter 60 ms) and parks the writer, and is written with a pause spanning that expiry."),
     "engine": "rapidcheck+libFuzzer",
     "technique": "property-based testing (rapidcheck) and libFuzzer over generated message histories: differential oracle reused-parser vs fresh-parser after every feed (stateful, whole history shrinks as one value)",
     "level_text": "Generated histories with a differential oracle (same element, same segmentation, fresh parser). Exploration only.",
@@ -293,7 +293,7 @@ PROPS["C05"] = {
              "harness's own strict RFC 7230 reader checks status line, every header/cookie exactly once, exact framing, body/decoded chunks, nothing after the message, send() promise value and "
              "getResponseSize() = bytes on the wire. Fixed responses are repeated with maxResponseSize = s-2, s-1, s, s+1, 2s around the exact serialised size s: over the limit the promise "
              "must be rejected and nothing emitted (a probe request on the same connection must be answered next). Non-trivial = non-empty body/stream and (limit within +-2 of s, or a "
-             "chunk at a hex-length boundary, or a body at a doubling boundary); distinct = hash of the specification and limit variant."),
+             "chunk at a hex-length boundary, or a body at a doubling boundary); distinct = hash of the specification and limit variant. One case in four (by a hash of its bytes) runs with the process's global C++ locale set to one that groups digits (classic + numpunct grouping 3): protocol text must not change."),
     "engine": "rapidcheck",
     "technique": "property-based testing (rapidcheck) against a live endpoint: generated response specifications, independent strict HTTP grammar as the oracle, boundary-directed maximum-response-size configurations",
     "level_text": "Generated specifications x configurations against the real server over loopback; the message grammar is written for the harness and shares no code with pistache. Exploration only. libFuzzer is not used (network round trip per case, no useful coverage signal across threads).",
@@ -314,7 +314,7 @@ PROPS["C02"] = {
              "response specification (any status code, typed headers, 0-4 cookies with any attribute combination, fixed body or a stream of write / operator<< / flush operations). The request "
              "goes through Http::Experimental::Client to a live Http::Endpoint; the handler records method, resource, query, raw and typed headers, cookies and body; the client-side Response "
              "is recorded from the promise. Both are compared with the specifications; exactly one handler call and exactly one settlement per request. Sequential exchanges reuse pooled "
-             "keep-alive connections. Non-trivial = request has a body, query or cookie and response has a body or cookie; distinct = hash of both specifications."),
+             "keep-alive connections. Non-trivial = request has a body, query or cookie and response has a body or cookie; distinct = hash of both specifications. One case in four (by a hash of its bytes) runs with the process's global C++ locale set to one that groups digits (classic + numpunct grouping 3): protocol text must not change."),
     "engine": "rapidcheck",
     "technique": "property-based testing (rapidcheck): generated request/response specifications through the real client and server over loopback, with the specification (not the serialiser) as the round-trip oracle",
     "level_text": "Generated specifications through both real endpoints of the library. Exploration only. libFuzzer is not used (network round trip per case).",
@@ -336,7 +336,7 @@ PROPS["C14"] = {
              ">=1 s before or lasting >=1 s beyond the applicable time-out: min(header,body) in the head phase, body in the body phase, counted from connect). Oracle: total<=L -> first response "
              "200 and the handler ran for that tag; total>L -> first response 413 and the handler never ran; in-time -> 200 never 408; past -> 408 then EOF within deadline+1.6 s and the handler "
              "never ran. Non-trivial = size within +-1 of L with >=2 writes, or a body stall longer than the header time-out but inside the body time-out, or a 408 case with header != body "
-             "time-out; distinct = hash of the configuration and scripts. oracle_subchecks = scripts run."),
+             "time-out; distinct = hash of the configuration and scripts. oracle_subchecks = scripts run. Keep-alive scripts: a connection that lives 2.2 x the head deadline with a quick request every 0.4 x deadline (each request's clock starts when its predecessor was completed: all 200), and a second request that stalls in its head (408 counted from the completion of the first)."),
     "engine": "rapidcheck",
     "technique": "property-based testing (rapidcheck) with fault placement: generated configurations x scripted connections (byte-exact sizes around the limit, stalls placed on either side of the applicable time-out) against a live endpoint",
     "level_text": "Fault (stall) placements and boundary sizes are generated and enumerated around each configured limit against the real server. Sizes are exact in bytes; time-outs are judged only outside a +-1 s window because the implementation samples the clock every 500 ms by design.",
@@ -378,7 +378,7 @@ PROPS["C06"] = {
              "the successive socket write calls on that connection a generated sequence over {pass, accept at most k bytes, would-block (in runs)} applied through the send/sendfile hooks. A raw "
              "client reads the stream. Oracle: the stream is exactly the concatenation of the buffers in issue order (for two issuers: an interleaving of whole buffers preserving each issuer's "
              "order); each promise settles at most once, is fulfilled with the buffer's full size, not before the socket had accepted its last byte, and all are fulfilled in the end. "
-             "Non-trivial = >=2 writes and the script contained a short write followed later by a would-block; distinct = hash of the case."),
+             "Non-trivial = >=2 writes and the script contained a short write followed later by a would-block; distinct = hash of the case. One loop-thread case in three is a chain: write i+1 is issued from the continuation of write i's promise and followed by Transport::flush()."),
     "engine": "rapidcheck",
     "technique": "property-based testing (rapidcheck) with injected faults: generated write lists x generated short-write / would-block scripts applied through a guarded socket-call indirection; oracle = byte-exact stream reconstruction and promise accounting",
     "level_text": "Placements of short writes and would-block results over the successive socket calls are generated per case and applied to the real transport on a live connection. Not exhaustive: placements are sampled.",
@@ -398,7 +398,7 @@ PROPS["C07"] = {
              "stops reading for a generated 1.6-3.0 s, so 1..k writes are pending on a socket that really returns EAGAIN; 1-3 other connections send 1-4 small requests each at generated offsets "
              "before, during and after the stall. Oracle: every other request is answered correctly within 1 s; the socket write attempts on A between its first would-block and the release "
              "stay <= 4+2k (counted by the hook); after the release A receives exactly the pending responses, in order. Non-trivial = at least one request issued strictly inside the stall with "
-             "its 1 s bound ending before the release, while writes were pending; distinct = hash of the case. oracle_subchecks = cases run."),
+             "its 1 s bound ending before the release, while writes were pending; distinct = hash of the case. oracle_subchecks = cases run. In a quarter of the cases the request A sends at the release is answered as a stream with two flushes on the worker thread."),
     "engine": "rapidcheck",
     "technique": "property-based testing (rapidcheck) with real kernel back-pressure as the injected fault: generated stall durations, pending-write counts and request placements; oracle = latency bound on other connections, hook-counted write attempts, byte-exact delivery after release",
     "level_text": "Placements and durations of a real would-block period relative to requests on other connections of the same worker are generated. Sampled, not exhaustive.",
@@ -425,7 +425,7 @@ PROPS["C15"] = {
              "server closes c of the idle connections (end-of-stream pending at the client) and n requests are issued from the application thread, the first ones onto the connections about to be "
              "found closed; close(), connect() and send() are interposed and every descriptor number the client closes is re-occupied at once by a socket the harness owns, so that a request "
              "written to a stale number arrives at the harness. Oracle: nothing is ever written there, every fulfilled request carries its own tag, none is settled twice, requests on connections "
-             "the server never closed are fulfilled. Non-trivial there = a held round with at least one closed connection pending."),
+             "the server never closed are fulfilled. Non-trivial there = a held round with at least one closed connection pending. One batch in four gets a last request with a time-out of 1.7-1.9 s that the server answers after 1.12 s (inside the time-out, later than a whole second): it must be fulfilled."),
     "engine": "rapidcheck",
     "technique": "property-based testing (rapidcheck) of the real client against a generated scripted server (response segmentation, delays, closes, malformed and missing answers as injected behaviours); oracle = per-request tag matching and settlement accounting, server-side connection invariants",
     "level_text": "Generated batches x server behaviours; OS-level interleavings between client threads are sampled, not owned. Exploration only.",
@@ -453,7 +453,7 @@ PROPS["C09"] = {
              "The same cases run under the asan build and under the tsan build. One case in three is instead a shared-router case without sockets: 2-4 plain threads call "
              "Router::route() on one shared router with generated requests (statuses checked against the same table) - nothing orders those threads, so under the tsan build any unsynchronised "
              "access to the router's shared state is reported whatever the timing. Non-trivial = >=2 workers, >=2 clients and >=3 methods in the mix, or a shutdown point other than idle; "
-             "distinct = hash of the configuration and choice stream. oracle_subchecks = cases run."),
+             "distinct = hash of the configuration and choice stream. oracle_subchecks = cases run. In a third of the wire-level cases a client asks for an answer that comes 40 ms later from another thread (/slow/:ms) and closes at once; three connections made right after must receive nothing unasked and exactly their own answer to their own request."),
     "engine": "rapidcheck (asan and tsan builds)",
     "technique": "property-based testing (rapidcheck) of generated load / shutdown configurations against a live multi-worker endpoint under ThreadSanitizer and AddressSanitizer; oracle = per-request response identity against an independent route table, shutdown/thread-count bounds, sanitizer reports filtered to pistache frames",
     "level_text": "Decides the functional half (exactly one correct response per request, shutdown terminates, threads gone) on generated configurations; the race-freedom half only as far as a dynamic detector on OS-chosen schedules can. Schedules are sampled, not owned.",
